@@ -1190,6 +1190,9 @@ class Suspender(Interrupter):
             return aux
 
         if not aux.done: #not done so active
+            if aux.original and aux.main is not main:
+                return None  # active under another frame so not ours to run
+
             aux.segue()
             aux.recur()
 
@@ -1207,6 +1210,8 @@ class Suspender(Interrupter):
 
     def deactivize(self, aux, **kwa):
         """ If not aux.done Then force deactivate. Used in exit action."""
+        if aux.original and aux.main is not self._act.frame:
+            return  # aux is not running under this frame so leave it alone
         if not aux.done:
             console.profuse("{0} deactivate {1}\n".format(self.name, aux.name))
             self.deactivate(aux)
